@@ -327,6 +327,19 @@ class ShiftEval:
             if op == "*":
                 v_ = self.expr(ch[0])
                 return v_[1] if isinstance(v_, tuple) and v_ and v_[0] == "P" else v_
+            if op == "&":
+                # the address of an element of a sample array is a pointer to samples of that class
+                a0 = strip(ch[0], casts=True)
+                if a0["kind"] == "ArraySubscriptExpr":
+                    self.expr(kids(a0)[1])
+                    b0 = strip(kids(a0)[0], casts=True)
+                    if b0["kind"] == "MemberExpr":
+                        c_ = self.field_cls.get(b0.get("name"))
+                        return ("P", c_) if c_ is not None else None
+                    v_ = self.expr(b0)
+                    return v_ if isinstance(v_, tuple) and v_ and v_[0] == "P" else None
+                if a0["kind"] == "UnaryOperator" and a0.get("opcode") == "*":
+                    return self.expr(kids(a0)[0])
             return None
         if k == "ConditionalOperator":
             self.expr(ch[0])
